@@ -200,7 +200,7 @@ def correspondence(ctx):
     both consistent with a true attitude (fixed-point region) and generic, gyro noise-sized, zero and large"""
     import ahrs
     I = _impl()
-    n = ctx.n(16, 120)
+    n = ctx.n(12, 120)
     rng = ctx.rng
     T = {t.name: t for t in targets()}
     for name, f in I.items():
@@ -439,16 +439,18 @@ def o_converge(inp):
     if e is None:
         return {'tag': f'{nm}/shape-or-nonfinite', 'observed': np.asarray(Qs)[-1:]}
     tol, settle, slack = float(inp['tol']), int(inp['settle']), float(inp.get('slack', 0.5))
-    over = float(np.max(e - e[0]))
-    if over > slack:
-        k = int(np.argmax(e))
-        return {'tag': f'{nm}/exceeds-initial', 'observed': {'initial': float(e[0]), 'max': float(e[k]), 'at': k},
-                'expected': f'error <= initial + {slack} deg'}
+    # the settling clause is tested first: a run that ends away from the truth is reported as such even when its error
+    # also rose above the initial one (several MARG filters do the latter on the unchanged tree: known findings)
     tail = e[settle:]
     if float(tail.max()) > tol:
         k = settle + int(np.argmax(tail))
         return {'tag': f'{nm}/not-settled', 'observed': {'initial': float(e[0]), 'error': float(e[k]), 'at': k, 'final': float(e[-1])},
                 'expected': f'error <= {tol} deg from sample {settle} on'}
+    over = float(np.max(e - e[0]))
+    if over > slack:
+        k = int(np.argmax(e))
+        return {'tag': f'{nm}/exceeds-initial', 'observed': {'initial': float(e[0]), 'max': float(e[k]), 'at': k},
+                'expected': f'error <= initial + {slack} deg'}
     return None
 
 
@@ -531,10 +533,10 @@ ORACLES = {'converge': o_converge, 'zero_gyro': o_zero_gyro, 'jacobian': o_jacob
 # worst observed settling index, tol >= 5 x the worst observed floor (max error over the last 10 %), see notes/design/C05.md.
 CONFIGS = [
     # filter          marg  frame  gains                                    freq    N     settle tol   slack tier
-    ('madgwick',      0, 'NED', {},                                          10.0, 3600, 3000, 2.0,  0.5, 'q'),   # floor .37 (chatter ~ beta*dt), settle 1745
-    ('madgwick',      1, 'NED', {},                                          10.0, 3600, 3000, 2.0,  0.5, 'q'),   # floor .37, settle 1888
-    ('madgwick',      0, 'NED', {'gain': 0.5},                              100.0, 2400, 2000, 3.0,  0.5, 'q'),   # floor .52, settle 1147 (tol 2)
-    ('madgwick',      1, 'NED', {'gain': 0.5},                              100.0, 3000, 2500, 3.0,  0.5, 't'),   # floor .47, settle 1544
+    ('madgwick',      0, 'NED', {},                                          10.0, 5800, 5200, 2.0,  0.5, 'q'),   # floor .37 (chatter ~ beta*dt); 175-deg starts: settle max 2082 of 30, one at ~3300 (saddle)
+    ('madgwick',      1, 'NED', {},                                          10.0, 5800, 5200, 2.0,  0.5, 'q'),   # floor .37; settle max 1931 of 30, one at ~3300
+    ('madgwick',      0, 'NED', {'gain': 0.5},                              100.0, 3600, 3200, 3.0,  0.5, 'q'),   # floor .52, settle max 1373 of 30
+    ('madgwick',      1, 'NED', {'gain': 0.5},                              100.0, 4400, 4000, 3.0,  0.5, 't'),   # floor .47, settle 1544
     ('mahony',        0, 'NED', {},                                         100.0, 3000, 2600, 0.05, 0.5, 'q'),   # floor 5.1e-3, settle 1699
     ('mahony',        1, 'NED', {},                                          20.0, 4800, 4300, 0.15, 0.5, 'q'),   # floor 2.1e-2, settle 2851
     ('mahony',        0, 'NED', {'k_P': 3.0, 'k_I': 1.5},                   100.0, 2200, 1800, 0.05, 0.5, 'q'),   # floor 2.2e-3, settle 1202
